@@ -31,6 +31,50 @@ type rdb struct {
 	// probeIns: per table an INSERT statement (text) used as the statement issued after the
 	// recovery of a flush-crash image; an INSERT exposes a row-id counter that went backwards
 	probeIns map[string]string
+	// walSynced: length of the log file that is known to be durable - what the file held when the
+	// last completed fsync was issued (tracked by trackSync from the log hooks; -1 = not tracked)
+	walSynced   int64
+	pendingSync int64
+	trackWal    bool
+}
+
+// trackSync follows the log events of every statement: an fsync makes durable what the file holds
+// when it is issued, and is complete by the time the next event arrives.
+func (d *rdb) trackSync(ev string, arg uint64) {
+	if !strings.HasPrefix(ev, "wal.") {
+		return
+	}
+	if d.pendingSync >= 0 {
+		d.walSynced = d.pendingSync
+		d.pendingSync = -1
+	}
+	if ev == "wal.sync" {
+		d.pendingSync = fileLen("data/" + d.name + "/wal")
+	}
+}
+
+// startWalTracking: from now on the durable length of the log is observed through the log hooks
+func (d *rdb) startWalTracking() {
+	d.trackWal = true
+	d.walSynced = fileLen("data/" + d.name + "/wal")
+	d.pendingSync = -1
+	storage.VerifSetHook(d.trackSync)
+}
+
+// syncedLen is the durable length of the log right now (no log operation is in flight).
+func (d *rdb) syncedLen() int64 {
+	n := fileLen("data/" + d.name + "/wal")
+	if !d.trackWal {
+		return n
+	}
+	if d.pendingSync >= 0 {
+		d.walSynced = d.pendingSync
+		d.pendingSync = -1
+	}
+	if d.walSynced < n {
+		return d.walSynced
+	}
+	return n
 }
 
 func dbErrKind(err error) string {
@@ -154,25 +198,27 @@ func (d *rdb) stmtWithLogCrashPoints(q string, probes []string) string {
 		dir string
 	}
 	var images []img
-	walPath := "data/" + d.name + "/wal"
-	synced := fileLen(walPath)
 	k := 0
-	var frame int64
 	storage.VerifSetHook(func(ev string, arg uint64) {
 		if !strings.HasPrefix(ev, "wal.") {
 			return
 		}
-		images = append(images, img{k, "write", d.captureImage(-1)}, img{k, "sync", d.captureImage(synced)})
-		switch ev {
-		case "wal.len":
-			frame = 4 + int64(arg)
-		case "wal.sync":
-			synced += frame // this record is durable once the sync returns, i.e. at the next event
+		// durable = what the file held when the last completed fsync was issued - observed, not assumed
+		// (a log writer that syncs before its bytes reach the file shows here)
+		d.trackSync(ev, arg)
+		synced := d.walSynced
+		if n := fileLen("data/" + d.name + "/wal"); synced > n || !d.trackWal {
+			synced = n
 		}
+		images = append(images, img{k, "write", d.captureImage(-1)}, img{k, "sync", d.captureImage(synced)})
 		k++
 	})
 	res := d.stmt(q)
-	storage.VerifSetHook(nil)
+	if d.trackWal {
+		storage.VerifSetHook(d.trackSync)
+	} else {
+		storage.VerifSetHook(nil)
+	}
 	for _, im := range images {
 		// after the probe statements: a second crash and a second recovery
 		d.cfg.tr.Op("image %d %s %s again", im.k, im.cut, strings.Join(hexAll(probes), " "))
@@ -1009,6 +1055,13 @@ func replayDB(cfg *config, id int, lines []string) {
 		switch f[0] {
 		case "createdb":
 			d.createdb()
+			for _, x := range lines {
+				if strings.HasPrefix(x, "image ") {
+					d.startWalTracking()
+					defer storage.VerifSetHook(nil)
+					break
+				}
+			}
 		case "image", "fimage":
 			// produced by the statement / flush before it
 		case "stmt":
@@ -1172,6 +1225,19 @@ func runFailures(cfg *config, id int, r *hx.Rng) {
 			d.stmt("UPDATE t1 SET b = '" + strings.Repeat("w", 30) + "'")
 		case 4: // UPDATE with a value of the wrong type
 			d.stmt("UPDATE t1 SET a = 'text'")
+			// ... in a later column, behind an assignment that is fine: nothing of the row may change
+			d.stmt("UPDATE t1 SET a = 424242, d = 'notbool'")
+			d.stmt("UPDATE t1 SET b = 'changed', a = 99999999999")
+			d.selectEvery()
+			// a table of several leaves, emptied by one DELETE that visits every separator key
+			d.stmt("DELETE FROM t1")
+			var many [][]interface{}
+			for i := 0; i < 14+n; i++ {
+				many = append(many, good(i))
+			}
+			d.insertv("t1", nil, many)
+			d.stmt("DELETE FROM t1 WHERE a >= 0")
+			d.selectEvery()
 		case 5:
 			d.stmt("CREATE TABLE t1 (q int)")
 			d.stmt("INSERT INTO nosuch VALUES (1)")
@@ -1266,7 +1332,9 @@ func runLogCrashes(cfg *config, id int, r *hx.Rng) {
 	cfg.tr.Case(id)
 	d := &rdb{cfg: cfg, name: fmt.Sprintf("l%d", id)}
 	defer d.close()
+	defer storage.VerifSetHook(nil)
 	d.createdb()
+	d.startWalTracking()
 	t := genSchema2(r, 1, 4)
 	d.stmt(createText(t))
 	pre := r.Range(0, 10) // rows before: leaf and root splits fall inside the crashed statements
